@@ -77,6 +77,14 @@ user = Prog(
     "u",
 )
 
+# a hard constraint: bounded support that moves with a parent (density 0 outside)
+bounded = Prog(
+    "bounded",
+    ("a",),
+    (Site("x", "normal", ("a", "1.0")), Site("u", "uniform", ("x - 1.0", "x + 1.0")), Site("y", "normal", ("u", "0.5"))),
+    "y",
+)
+
 # vector-parameterised site: one address whose value and score are vectors
 vecparam = Prog(
     "vecparam",
@@ -252,6 +260,7 @@ FAMILY = {
     "expo": (expo, [(f32(-1.2),)], "quick"),
     "user": (user, [(f32(0.3),)], "quick"),
     "vecparam": (vecparam, [(A(0.1, 0.7),)], "quick"),
+    "bounded": (bounded, [(f32(0.3),)], "quick"),
     "kw": (kw, [(f32(0.3),)], "quick"),
     "vmap_kw": (vmap_kw, [(A(0.1, 0.7),)], "quick"),
     "vmap_kwsite": (vmap_kwsite, [(A(0.1, 0.7), A(0.5, -2.0))], "quick"),
@@ -294,6 +303,7 @@ ALT_ARGS = {
     "expo": [(f32(0.3),)],
     "user": [(f32(-1.2),)],
     "vecparam": [(A(0.5, -0.4),)],
+    "bounded": [(f32(-1.2),)],
     "kw": [(f32(-1.2),)],
     "vmap_kw": [(A(0.5, -0.4),)],
     "vmap_kwsite": [(A(0.5, -0.4), A(1.0, 0.2))],
